@@ -3,11 +3,10 @@
 (* C13, hook tier: sequences of events observed at the linearization       *)
 (* points of the real Run (the verif hooks, the caller's cancel(), the     *)
 (* opcode fetch that begins a Step, Run's return) are validated against    *)
-(* the goroutine model RunCancel.  Unlogged atomic steps (the runner's     *)
-(* flag load that sees 0, the end of a Step, the stop tests, the deferred  *)
-(* cancel, the watcher's exit) are silent steps of the trace               *)
-(* specification; a trace is accepted when SOME interleaving of silent     *)
-(* steps explains the whole log.  Several runs are concatenated with a     *)
+(* the goroutine model RunCancel.  The model's atomic steps are silent     *)
+(* steps of the trace specification and the logged events constrain the    *)
+(* control state of their process; a trace is accepted when SOME           *)
+(* interleaving explains the whole log.  Several runs are concatenated with a     *)
 (* "reset" event.                                                           *)
 (*                                                                          *)
 (* Acceptance is signalled by violating the "invariant" NotAccepted (TLC   *)
@@ -24,21 +23,29 @@ Silent == UNCHANGED l
 
 TInit == Init /\ l = 1
 
-\* logged events
+\* A hook is called AFTER the atomic step it reports and before the next atomic step of the same
+\* goroutine, so a logged event is an observation "this process stands between X and its next
+\* step" - not the step itself: another goroutine may already have reacted to X when the event
+\* is recorded (e.g. the runner sees the flag and logs runner-saw-cancel before the watcher logs
+\* watcher-stored).  Every atomic step of the model is therefore silent, and an event only
+\* constrains the control state of its process.
+Obs(e, proc, at) == IsEv(e) /\ pc[proc] = at /\ UNCHANGED vars
+\* the caller logs "cancel" and then calls cancel(): treating the call as simultaneous with the
+\* log only allows more behaviours (nothing can react before the real call)
 TCancel == IsEv("cancel") /\ c1 /\ parentDone'
 TNoCancel == Silent /\ c1 /\ ~parentDone'                 \* the caller decides never to cancel (unlogged)
-TWoken == IsEv("watcher-woken") /\ w1
-TWrote == IsEv("watcher-wrote") /\ w2
-TStored == IsEv("watcher-stored") /\ w3
-TStepBegin == IsEv("step-begin") /\ r3
-TSawCancel == IsEv("runner-saw-cancel") /\ canceled # 0 /\ r1
-TReturned == /\ IsEv("returned") /\ rend
+TWoken == Obs("watcher-woken", "watcher", "w2")
+TWrote == Obs("watcher-wrote", "watcher", "w3")
+TStored == Obs("watcher-stored", "watcher", "w4")
+TStepBegin == Obs("step-begin", "runner", "r4")          \* recorded by the first bus access inside the Step
+TSawCancel == Obs("runner-saw-cancel", "runner", "r2")
+TReturned == /\ Obs("returned", "runner", "Done")
              /\ CASE Ev.err = "ctx" -> ret = "ctx-error"
                   [] Ev.err = "nil" -> ret = "nil-halt"
                   [] Ev.err = "bp"  -> ret = "breakpoint"
                   [] OTHER -> FALSE
-\* unlogged atomic steps
-TSilent == Silent /\ ((canceled = 0 /\ r1) \/ r4 \/ r5 \/ r6 \/ r2 \/ rdefer \/ w4)
+\* the atomic steps themselves
+TSilent == Silent /\ (w1 \/ w2 \/ w3 \/ w4 \/ r1 \/ r2 \/ r3 \/ r4 \/ r5 \/ r6 \/ rdefer \/ rend)
 \* next run: everything back to the initial state
 TReset == /\ IsEv("reset") /\ returned /\ watcherDone          \* the run is over and the watcher has exited (no leak)
           /\ pc' = [self \in ProcSet |-> CASE self = "caller" -> "c1" [] self = "watcher" -> "w1" [] self = "runner" -> "r1"]
